@@ -808,7 +808,7 @@ INT_PARAMS = {"rank", "n_samples", "mode", "modes", "n_iter_max", "n_iter_max_in
               "skip_matrix", "skip", "axis", "k", "n_padding", "max_stagnation", "size", "n_dims", "n_components", "random_state", "seed", "verbose", "indices", "indices_list",
               "slice_idx", "n_iter_parafac", "svd_mask_repeats", "n_iter_mask_imputation", "max_fail", "iteration", "n_dim", "n_dimensions", "fixed_modes", "nn_modes", "fixed_factors",
               "tensor_shape", "n_oversamples", "n_power_iterations", "n_eigen", "n_unfoldings", "threshold_k", "weight_rank", "weight_ranks", "batched_modes", "row_modes", "column_modes",
-              "n_modes", "n_matrices", "skip_factor", "start", "ranks", "tensorized_shape"}
+              "n_modes", "n_matrices", "skip_factor", "start", "ranks", "tensorized_shape"} | (set(os.environ.get("VERIF_C18_EXTRA_INT_PARAMS", "").split(",")) - {""})
 FLOAT_PARAMS = {"threshold", "regularizer", "reg", "parameter", "tol", "lr", "alpha", "scale", "jump", "tol_outer", "tol_inner", "epsilon", "reg_W", "reg_E", "reg_J", "learning_rate",
                 "mu_init", "mu_max", "sparsity_coef", "ridge_coef", "sparsity_coefficient", "ridge_coefficient", "l2_reg", "l1_reg", "acc_pow", "delta", "eps", "bound", "percent",
                 "compression_threshold"}
@@ -846,6 +846,8 @@ PARTIAL_EXACT = {"lstsq": [True, False], "svd": [True, False, True], "truncated_
                  "symeig_svd": [True, False, True], "eigh": [False, True], "svd_fun": [True, False, True]}
 EXACT_CALLEES_DEFAULT = {}   # the same under the assumption that the callee (and its callees) run with their boolean / string options at the DEFAULT values
 CALLEE_FLAGS = {}            # bare name -> {"flags": {option: default}, "first": position of the first such option among the parameters}
+INT_POSITIONS = {}      # bare name of a library function returning a tuple -> [length of the tuple, positions that hold index / count values (Python ints, integer
+                        # arrays, lists of index tuples) in EVERY return statement]; loaded from the baseline, re-derived and compared on every run
 MODULE_OBJECTS = {}     # module path -> names bound at module level to a mutable container / the result of a call (a singleton): PERSISTENT state, filled by extract_functions
 EXACT_CALLEES = {}      # bare name of a library function -> True (every array output exact) | [bool per tuple position]; loaded from the baseline
 
@@ -958,6 +960,7 @@ class Translator:
         self.consts = {}         # loop counters with a statically known position: name -> "first" (== 0) | "later" (>= 1)
         self.retinfo = {}        # return variable -> (line of the return statement, position in the returned tuple, length of the tuple)
         self.arrayvars = set()   # names bound to an ndarray (allocation, element-wise result, slice of one): `x op= v` on them is IN PLACE
+        self.retints = []        # per return statement: (length of the returned tuple, positions whose value is index-like)
         # PERSISTENT state (Model/DtypeHist.v): module-level containers / singletons of the function's module and names declared `global` / `nonlocal`.
         # A read of such a name before the function has assigned it is a read of the variable "$persist.<name>", which no statement of the program
         # assigns: its value is whatever an EARLIER call left there (unknown to the program checks, so nothing computed from it is certified), and the
@@ -1183,6 +1186,18 @@ class Translator:
             return EXACT_CALLEES_DEFAULT[A]
         return EXACT_CALLEES.get(A)
 
+    def int_positions_of(self, node):
+        """[length, positions] of the index-valued tuple positions of the library function called by `node`, or None (methods of objects are never
+        resolved by their bare name)"""
+        A = self.call_name(node)
+        if A not in INT_POSITIONS:
+            return None
+        if isinstance(node.func, ast.Attribute):
+            d = self.dotted(node.func)
+            if d is None or d[0] not in MODULES or d[0] in self.defined:
+                return None
+        return INT_POSITIONS[A]
+
     def default_call(self, A, node):
         """the call leaves every boolean / string option of the callee at its default (not passed, passed as the same literal, or passed as an
         option of the caller that is itself at the same default)"""
@@ -1331,12 +1346,16 @@ class Translator:
         # container constructors and library functions (modular summary: the callee is certified separately under the assumption that ALL
         # its array arguments have the data's dtype): everything that goes in is promoted; exact only if every array argument is
         realargs = self.real_param_args(A, n) if base_expr is None else set()
+        # an index-valued argument handed to a parameter that the callee's own translation treats as an index (INT_PARAMS: rank, mode, indices, row_idx ...)
+        # selects entries inside the callee, it does not take part in its arithmetic: left out of the summary
+        intargs = self.real_param_args(A, n, INT_PARAMS) if base_expr is None else set()
+        intargs = {i for i in intargs if i < len(allv) and idxlike(allv[i], self.intvars, self.weakvars) and not weaklike(allv[i], self.weakvars)}
         arrs = [x for i, x in enumerate(allv) if not idxlike(x, self.intvars, self.weakvars) and not weaklike(x, self.weakvars) and i not in realargs]
-        rest = [x for i, x in enumerate(allv) if idxlike(x, self.intvars, self.weakvars) or weaklike(x, self.weakvars) or i in realargs]
+        rest = [x for i, x in enumerate(allv) if (idxlike(x, self.intvars, self.weakvars) or weaklike(x, self.weakvars) or i in realargs) and i not in intargs]
         r = opjoin([joinlist(arrs)] + rest)
         return r if (raw or A in CONTAINER_CALLS or self.spec_of(A, n) is True) else self.inexact(r)
 
-    def real_param_args(self, A, n):
+    def real_param_args(self, A, n, which=None):
         """positions in `[x for x in args + keyword values if x is not None]` of the arguments bound to a REAL_PARAMS parameter of the library function A"""
         info = CALLEE_FLAGS.get(A)
         if not info or not info.get("params"):
@@ -1350,7 +1369,7 @@ class Translator:
         for nm, v in zip(names, vals):
             if v is None:
                 continue
-            if nm in REAL_PARAMS:
+            if nm in (REAL_PARAMS if which is None else which):
                 out.add(j)
             j += 1
         return out
@@ -1679,6 +1698,20 @@ class Translator:
                 return
             if len(s.targets) == 1 and isinstance(s.targets[0], (ast.Tuple, ast.List)) and isinstance(s.value, ast.Call):
                 spec = self.spec_of(self.call_name(s.value), s.value)
+                ip = self.int_positions_of(s.value)
+                if ip is not None and ip[0] == len(s.targets[0].elts) and ip[1]:
+                    # a library function known to return index / count values at some positions of its tuple (INT_POSITIONS): those targets are
+                    # integer-valued, the others are handled as before
+                    r = self.call(s.value, raw=True)
+                    okr = r if spec is True else self.inexact(r)
+                    for k, t in enumerate(s.targets[0].elts):
+                        if k in ip[1]:
+                            self.assign(t, INTS)
+                        else:
+                            self.assign(t, (r if spec[k] else self.inexact(r)) if (isinstance(spec, list) and len(spec) == ip[0]) else okr)
+                        if isinstance(t, ast.Name):
+                            self.arrayvars.discard(t.id)
+                    return
                 if isinstance(spec, list) and len(spec) == len(s.targets[0].elts):
                     r = self.call(s.value, raw=True)
                     for t, okk in zip(s.targets[0].elts, spec):
@@ -1716,6 +1749,12 @@ class Translator:
             if s.value is None:
                 return
             vals = [s.value] if not isinstance(s.value, ast.Tuple) else list(s.value.elts)
+            ints = set()
+            for pos, v in enumerate(vals):
+                comps = [c if isinstance(c, tuple) else self.ex(c) for c in self.components(v)]
+                if comps and all(c is not None and c[0] not in ("dtypeof", "dtconst") and idxlike(c, self.intvars, self.weakvars) and not weaklike(c, self.weakvars) for c in comps):
+                    ints.add(pos)
+            self.retints.append((len(vals), ints))
             for pos, v in enumerate(vals):
                 # a returned container (tuple, CPTensor((weights, factors)), a variable still bound to one) is reported component by component:
                 # each of weights / factors / core / errors is an output of its own (same position of the returned tuple for the callers)
@@ -1900,7 +1939,9 @@ def translate(fn_node, qual, defaults_mode=False, flag_override=None):
     gl = "[" + "; ".join(f"({vid(n)}, {gallina(e, vid)})" for n, e in loop) + "]"
     go = "[" + "; ".join(f'("*", (Var {vid(r)}))' for r in rets) + "]"
     persist = {n[len("$persist."):]: k for n, k in ids.items() if n.startswith("$persist.")}
-    return dict(qual=qual, persist=persist, prog=f"(mkprog {gi} {gl} {go})", n_init=len(init), n_loop=len(loop), n_out=len(rets), n_vars=len(ids), notes=tr.notes,
+    Ls = {L for L, _ in tr.retints}
+    int_pos = sorted(set.intersection(*[i for _, i in tr.retints])) if len(Ls) == 1 and next(iter(Ls)) > 1 else []
+    return dict(qual=qual, persist=persist, ret_len=(next(iter(Ls)) if len(Ls) == 1 else None), int_positions=int_pos, prog=f"(mkprog {gi} {gl} {go})", n_init=len(init), n_loop=len(loop), n_out=len(rets), n_vars=len(ids), notes=tr.notes,
                 retinfo=[tr.retinfo.get(r) for r in rets], flags=dict(tr.flags), first_flag=tr.first_flag, params=[a.arg for a in fn_node.args.posonlyargs + fn_node.args.args],
                 leaves=sorted({x for _, e in init + loop for x in leaves_of(e)}))
 
@@ -2098,6 +2139,40 @@ def callee_specs(ex, exact):
     return merged
 
 
+def int_positions_table(ex):
+    """bare function name -> [tuple length, positions index-valued in every return] (all functions of that name agreeing; methods excluded)"""
+    per = {}
+    for q, r in ex.items():
+        name = q.rsplit(".", 1)[1]
+        if "error" in r or name.startswith("__") or q.rsplit(".", 2)[1][:1].isupper():
+            continue
+        per.setdefault(name, []).append((r.get("ret_len"), set(r.get("int_positions") or [])))
+    out = {}
+    for name, lst in per.items():
+        Ls = {L for L, _ in lst}
+        if len(Ls) == 1 and next(iter(Ls)):
+            pos = set.intersection(*[p for _, p in lst])
+            if pos:
+                out[name] = [next(iter(Ls)), sorted(pos)]
+    return out
+
+
+def set_int_positions(tab):
+    INT_POSITIONS.clear()
+    INT_POSITIONS.update({k: [v[0], list(v[1])] for k, v in (tab or {}).items()})
+
+
+def int_positions_fixpoint(repo):
+    """least fixpoint: starts from no assumption, grows monotonically (a position found index-valued stays so when more callees are known)"""
+    set_int_positions({})
+    for _ in range(6):
+        tab = int_positions_table(extract_all(repo))
+        if tab == INT_POSITIONS:
+            break
+        set_int_positions(tab)
+    return dict(INT_POSITIONS)
+
+
 def set_exact_callees(specs, default_specs=None, flags=None):
     EXACT_CALLEES.clear()
     EXACT_CALLEES.update(specs)
@@ -2150,11 +2225,13 @@ def measure_exact(ex, levels, tag):
     return exact
 
 
-def write_extract_baseline(repo=None):
+def write_extract_baseline(repo=None, out_path=None):
     """measures, on the given tree, at which level every extracted function is certified and stores it"""
     import json, os
     repo = repo or C.REPO
     set_exact_callees({})
+    int_pos = int_positions_fixpoint(repo)
+    print("index-valued tuple positions of library callees:", int_pos)
     flags = callee_flags(extract_all(repo), repo)
     set_exact_callees({}, {}, flags)
     cases, meta, errors, ex = extract_cases(repo, lambda q: [2, 1])
@@ -2192,13 +2269,13 @@ def write_extract_baseline(repo=None):
             break
         set_exact_callees(dict(EXACT_CALLEES), specs, flags)
     head, dirty = C.repo_head()
-    json.dump({"repo_head": head, "levels": levels, "exact": exact, "exact_callees": dict(EXACT_CALLEES), "untranslatable": errors,
+    json.dump({"repo_head": head, "int_positions": int_pos, "levels": levels, "exact": exact, "exact_callees": dict(EXACT_CALLEES), "untranslatable": errors,
                "exact_default": exact_d, "exact_callees_default": dict(EXACT_CALLEES_DEFAULT), "callee_flags": flags,
                "comment": "level 2: extracted dtype program certified for every mask dtype; 1: for a mask of the data's dtype; 0: not certified "
                           "(documented float64 output: must be exactly DOCUMENTED_F64); exact[q].outs: positions (in the order of the return "
                           "expressions) of the outputs certified to have EXACTLY the data's dtype at that level - the others are real-valued "
                           "(norms, errors, abs) or joined with such values"},
-              open(os.path.join(C.VERIF, "corpus", "C18", EXTRACT_BASELINE), "w"), indent=1, sort_keys=True)
+              open(out_path or os.path.join(C.VERIF, "corpus", "C18", EXTRACT_BASELINE), "w"), indent=1, sort_keys=True)
     return levels, errors, exact, exact_d
 
 # ---- canaries of the history-independence instruments (translator + hist_free, static scanner)
@@ -2656,6 +2733,7 @@ def run(chk):
     # they run beside this process and are judged after its own (float32-first) pass
     hist_passes = H.start_passes(chk.tier, chk.seed) if os.environ.get("VERIF_C18_NO_HISTORY") != "1" else {}
     set_exact_callees(load_extract_baseline("exact_callees"), load_extract_baseline("exact_callees_default"), load_extract_baseline("callee_flags"))
+    set_int_positions(load_extract_baseline("int_positions"))
     chk.build_proofs()
     C.reset_backends()
     cases, meta = [], []
@@ -2834,6 +2912,14 @@ def run(chk):
     chk.cov["traces_validated_against_impl"] = n_eval
     for b in xbroken:
         chk.broken.append({"what": "correspondence corr:C18 (extracted programs) shard not evaluated", "detail": b})
+    # the index-valued tuple positions of library callees assumed by the translation (baseline) must be guaranteed by this run's translations
+    ip_now = int_positions_table(ex)
+    for name, (L_, pos_) in sorted(load_extract_baseline("int_positions").items()):
+        got = ip_now.get(name)
+        if got is None or got[0] != L_ or not set(pos_) <= set(got[1]):
+            chk.broken.append({"what": "C18 source-level tie: " + name + " is assumed by its callers to return index / count values at the positions " + str(pos_) +
+                                       " of its " + str(L_) + "-tuple, which this tree's source no longer guarantees; regenerate corpus/C18/_extracted_levels.json "
+                                       "(write_extract_baseline)", "detail": {"assumed": [L_, pos_], "now": got}})
     n_new, n_cert = 0, 0
     for i, (q, lvl, r) in enumerate(xmeta):
         chk.count(key=("extracted", q), nontrivial=True)
@@ -2960,6 +3046,7 @@ def run(chk):
     chk.notes.append(f"source-level exact-dtype tie with default options: {len(dmeta)} further functions, {sum(len(m[2]) for m in dmeta)} outputs certified")
     # ---- 4b3. what stands behind the SHALLOW skeleton families (output = promotion of the inputs, nothing of the internals transcribed): for each of
     # their entry points, is the program extracted from its source certified to return exactly the data's dtype (which is what the shallow skeleton says)?
+    # (round 7: FTTCross, FIndexed, FPermute, FFlipSign are transcribed now; they stay in this report because it shows what the source certification says about them)
     SHALLOW = {"FPure", "FTTCross", "FMetric", "FIndexed", "FPermute", "FFlipSign"}
     ok_all = {m[0] for i, m in enumerate(emeta) if i not in efailing}
     ok_def = {m[0] for i, m in enumerate(dmeta) if i not in dfailing}
